@@ -22,7 +22,7 @@ Lemma rm_sender_frame s r :
   senders (rm_sender s r) = del_key (senders s) (KRule r) /\ subs (rm_sender s r) = subs s /\ streams (rm_sender s r) = streams s /\
   adds (rm_sender s r) = adds s /\ drops (rm_sender s r) = drops s /\ tasks (rm_sender s r) = tasks s /\
   reader (rm_sender s r) = reader s /\ socket (rm_sender s r) = socket s /\ incoming (rm_sender s r) = incoming s /\
-  dead (rm_sender s r) = dead s /\ cloned (rm_sender s r) = cloned s /\ length (chans (rm_sender s r)) = length (chans s).
+  dead (rm_sender s r) = dead s /\ arcs (rm_sender s r) = arcs s /\ length (chans (rm_sender s r)) = length (chans s).
 Proof.
   assert (Hl : forall (l : list (chan item)) n x, length (upd l n x) = length l).
   { induction l as [|a l IH]; intros [|n] x; cbn; try reflexivity. now rewrite IH. }
@@ -60,7 +60,8 @@ Inductive tstep (s : sys) : label -> sys -> Prop :=
       let s1 := set_chan s c (subscribe sid ch1) in
       let s2 := with_subs s1 (put (subs s1) (a_rule a) {| e_ref := S (e_ref e); e_ch := c |}) in
       tstep s (LAddSubs sid)
-        (with_adds (with_streams s2 (put (streams s2) sid (mk_stream (Some (a_rule a)) c (seen s c)))) (del (adds s2) sid))
+        (with_arcs (with_adds (with_streams s2 (put (streams s2) sid (mk_stream (Some (a_rule a)) c (seen s c)))) (del (adds s2) sid))
+                   (arcs s ++ [(a_rule a, [sid])]))
   | TAddSubsVac sid a : lookup (adds s) sid = Some a -> a_pc a = A1 -> subs_busy s = false ->
       lookup (subs s) (a_rule a) = None ->
       let c := length (chans s) in
@@ -70,25 +71,26 @@ Inductive tstep (s : sys) : label -> sys -> Prop :=
       tstep s (LAddSubs sid) (with_adds s2 (put (adds s2) sid (add_at a (A2 c))))
   | TAddSender sid a c : lookup (adds s) sid = Some a -> a_pc a = A2 c -> senders_held s = false -> senders s <> [] ->
       tstep s (LAddSender sid)
-        (with_adds (with_streams (with_senders s (senders s ++ [(KRule (a_rule a), c)]))
-                                 (put (streams s) sid (mk_stream (Some (a_rule a)) c (seen s c))))
-                   (del (adds s) sid))
+        (with_arcs (with_adds (with_streams (with_senders s (senders s ++ [(KRule (a_rule a), c)]))
+                                            (put (streams s) sid (mk_stream (Some (a_rule a)) c (seen s c))))
+                              (del (adds s) sid))
+                   (arcs s ++ [(a_rule a, [sid])]))
   | TUnfiltered sid : fresh s sid = true ->
       tstep s (LUnfiltered sid)
         (with_streams (set_chan s 0 (subscribe sid (chan_at s 0))) (put (streams s) sid (mk_stream None 0 (seen s 0))))
   | TPollGot sid st x ch' : live s sid st -> try_recv sid (chan_at s (s_ch st)) = Got x ch' ->
       tstep s (LPoll sid) (with_streams (set_chan s (s_ch st) ch') (put (streams s) sid (got_more st x)))
   | TPollEnd sid st : live s sid st -> try_recv sid (chan_at s (s_ch st)) = RClosed -> tstep s (LPoll sid) s
-  | TDropRule sid st r : live s sid st -> s_rule st = Some r ->
-      tstep s (LDrop sid) (with_tasks (bury s sid st) (tasks s ++ [(r, R0)]))
+  | TDropRule sid st r a' : live s sid st -> s_rule st = Some r -> release (arcs s) sid = (a', true) ->
+      tstep s (LDrop sid) (with_arcs (with_tasks (bury s sid st) (tasks s ++ [(r, R0)])) a')
   | TDropNone sid st : live s sid st -> s_rule st = None -> tstep s (LDrop sid) (bury s sid st)
   | TClone sid sid2 st : live s sid st -> fresh s sid2 = true ->
       tstep s (LClone sid sid2)
-        (with_cloned (with_streams (set_chan s (s_ch st) (clone_rcv sid sid2 (chan_at s (s_ch st)))) (put (streams s) sid2 st)) true)
+        (with_arcs (with_streams (set_chan s (s_ch st) (clone_rcv sid sid2 (chan_at s (s_ch st)))) (put (streams s) sid2 st)) (join (arcs s) sid sid2))
   | TSetCap sid n st : live s sid st ->
       tstep s (LSetCap sid n) (set_chan s (s_ch st) (grow n (chan_at s (s_ch st))))
-  | TDropStartRule sid st r : live s sid st -> s_rule st = Some r ->
-      tstep s (LDropStart sid) (with_tasks (bury s sid st) (tasks s ++ [(r, R0)]))
+  | TDropStartRule sid st r a' : live s sid st -> s_rule st = Some r -> release (arcs s) sid = (a', true) ->
+      tstep s (LDropStart sid) (with_arcs (with_tasks (bury s sid st) (tasks s ++ [(r, R0)])) a')
   | TDropStartNone sid st : live s sid st -> s_rule st = None -> tstep s (LDropStart sid) (bury s sid st)
   | TDropSubsDone sid st r s1 : lookup (streams s) sid = Some st -> lookup (drops s) sid = Some R0 -> subs_busy s = false ->
       s_rule st = Some r -> rm_apply s r = (s1, None) ->
@@ -108,12 +110,17 @@ Inductive tstep (s : sys) : label -> sys -> Prop :=
   (* fix 3703ee13: add_match finds msg_senders empty (the reader has failed since the first check) and gives up *)
   | TAddSenderFail sid a c : lookup (adds s) sid = Some a -> a_pc a = A2 c -> senders_held s = false -> senders s = [] ->
       tstep s (LAddSender sid)
-        (with_adds (with_subs (set_chan s c (drop_rcv sid (chan_at s c))) (del (subs s) (a_rule a))) (del (adds s) sid)).
+        (with_adds (with_subs (set_chan s c (drop_rcv sid (chan_at s c))) (del (subs s) (a_rule a))) (del (adds s) sid))
+  (* fix 3c4a83a4: a stream whose rule (Arc) other clones still hold is dropped: nothing is given back *)
+  | TDropShared sid st r a' : live s sid st -> s_rule st = Some r -> release (arcs s) sid = (a', false) ->
+      tstep s (LDrop sid) (with_arcs (bury s sid st) a')
+  | TDropStartShared sid st r a' : live s sid st -> s_rule st = Some r -> release (arcs s) sid = (a', false) ->
+      tstep s (LDropStart sid) (with_arcs (bury s sid st) a').
 
 (* rm_apply leaves everything but subs and (one channel's closed flag) alone *)
 Lemma rm_apply_frame s r s1 o : rm_apply s r = (s1, o) ->
   senders s1 = senders s /\ streams s1 = streams s /\ adds s1 = adds s /\ drops s1 = drops s /\ tasks s1 = tasks s /\
-  reader s1 = reader s /\ socket s1 = socket s /\ incoming s1 = incoming s /\ dead s1 = dead s /\ cloned s1 = cloned s.
+  reader s1 = reader s /\ socket s1 = socket s /\ incoming s1 = incoming s /\ dead s1 = dead s /\ arcs s1 = arcs s.
 Proof.
   unfold rm_apply. destruct (lookup (subs s) r) as [e|]; [|intros H; inversion H; subst; repeat split].
   destruct (e_ref e) as [|[|n]]; intros H; inversion H; subst; clear H;
@@ -158,17 +165,17 @@ Proof.
     + eapply TPollGot; [split; eassumption | eassumption].
     + eapply TPollEnd; [split; eassumption | eassumption].
   - destruct (lookup (streams s) sid) as [st|] eqn:Es; [|discriminate]. destruct (lookup (drops s) sid) eqn:Ed; [discriminate|].
-    destruct (s_rule st) eqn:Er; intros H; inversion H; subst s'.
-    + eapply TDropRule; [split; eassumption | eassumption].
-    + eapply TDropNone; [split; eassumption | eassumption].
+    destruct (s_rule st) eqn:Er.
+    + destruct (release (arcs s) sid) as [a' [|]] eqn:Erel; intros H; inversion H; subst s'; [eapply TDropRule | eapply TDropShared]; try split; eassumption.
+    + intros H; inversion H; subst s'. eapply TDropNone; [split; eassumption | eassumption].
   - destruct (lookup (streams s) sid) as [st|] eqn:Es; [|discriminate]. destruct (lookup (drops s) sid) eqn:Ed; [discriminate|].
     destruct (fresh s sid2) eqn:Ef; [|discriminate]. intros H; inversion H; subst s'. eapply TClone; [split; eassumption | eassumption].
   - destruct (lookup (streams s) sid) as [st|] eqn:Es; [|discriminate]. destruct (lookup (drops s) sid) eqn:Ed; [discriminate|].
     intros H; inversion H; subst s'. eapply TSetCap. split; eassumption.
   - destruct (lookup (streams s) sid) as [st|] eqn:Es; [|discriminate]. destruct (lookup (drops s) sid) eqn:Ed; [discriminate|].
-    destruct (s_rule st) eqn:Er; intros H; inversion H; subst s'.
-    + eapply TDropStartRule; [split; eassumption | eassumption].
-    + eapply TDropStartNone; [split; eassumption | eassumption].
+    destruct (s_rule st) eqn:Er.
+    + destruct (release (arcs s) sid) as [a' [|]] eqn:Erel; intros H; inversion H; subst s'; [eapply TDropStartRule | eapply TDropStartShared]; try split; eassumption.
+    + intros H; inversion H; subst s'. eapply TDropStartNone; [split; eassumption | eassumption].
   - destruct (lookup (streams s) sid) as [st|] eqn:Es; [|discriminate]. destruct (lookup (drops s) sid) as [[|c]|] eqn:Ed; try discriminate.
     destruct (subs_busy s) eqn:Eb; [discriminate|]. destruct (s_rule st) as [r|] eqn:Er; [|discriminate].
     destruct (rm_apply s r) as [s1 [c|]] eqn:Ea; intros H; inversion H; subst s'.
@@ -198,9 +205,9 @@ Lemma reader_rm s r : reader (rm_sender s r) = reader s.  Proof. apply rm_sender
 Lemma socket_rm s r : socket (rm_sender s r) = socket s.  Proof. apply rm_sender_frame. Qed.
 Lemma incoming_rm s r : incoming (rm_sender s r) = incoming s.  Proof. apply rm_sender_frame. Qed.
 Lemma dead_rm s r : dead (rm_sender s r) = dead s.  Proof. apply rm_sender_frame. Qed.
-Lemma cloned_rm s r : cloned (rm_sender s r) = cloned s.  Proof. apply rm_sender_frame. Qed.
+Lemma arcs_rm s r : arcs (rm_sender s r) = arcs s.  Proof. apply rm_sender_frame. Qed.
 Lemma length_chans_rm s r : length (chans (rm_sender s r)) = length (chans s).  Proof. apply rm_sender_frame. Qed.
-#[export] Hint Rewrite senders_rm subs_rm streams_rm adds_rm drops_rm tasks_rm reader_rm socket_rm incoming_rm dead_rm cloned_rm
+#[export] Hint Rewrite senders_rm subs_rm streams_rm adds_rm drops_rm tasks_rm reader_rm socket_rm incoming_rm dead_rm arcs_rm
   length_chans_rm : rms.
 
 Lemma length_close_all s : length (close_all s) = length (chans s).
